@@ -11,8 +11,10 @@ MANIFEST = {
             "increasing in id, the i-th vector entry is found at the i-th advertised path (structural paths and tuple members; every advertised "
             "path is classified) and at every structural path of the i-th parameter, constants untouched, "
             "derived and tuple values (members of every kind) computed from the same assignment, frame property, vector / unit-vector / path routes agree "
-            "(any choice of paths, last entry wins); tied to the code by a "
-            "bit-exact vm_compute correspondence on generated composition programs (two-sided abstraction) and a direct property oracle",
+            "(any choice of paths, last entry wins), items of a collection addressed by name at whatever position (item order irrelevant; "
+            "numeric names are not positions); tied to the code by a "
+            "bit-exact vm_compute correspondence on generated composition programs (two-sided abstraction; second sweep: object_for_path at every "
+            "advertised path and the instance accessors vs prior_at / lookup) and a direct property oracle",
     "note": "Trusted: Coq kernel + vm_compute; the harness's raw __dict__ abstraction of live model objects and instances; the "
             "composition API itself is compared with the generator's expected tree. Not modelled: AnnotationPriorModel, deferred "
             "arguments, Array models and the arithmetic forms -, **, neg, abs (oracle only: ModelTree has no node for them), jax pytrees; "
@@ -361,7 +363,7 @@ def oracle(c, r, root, vec_hex, unit_hex, stats, skip_inst=False):
             return "unique path %s is not among paths" % ".".join(p)
     # every advertised path names (component by component, by NAME) the parameter it is advertised for, and that is the
     # parameter a value supplied at the path is given to -- also when the path is handed back as strings
-    for p, adv, got_tuple, got_str in r.get("resolve", []):
+    for p, adv, got_tuple, got_str, got_item in r.get("resolve", []):
         kind = program_path_kind(root, p)
         if kind not in (None, "arith") and program_prior_at(root, p) != adv:
             return "path %s is advertised for parameter %s, the composition has parameter %s there" % (
@@ -369,6 +371,9 @@ def oracle(c, r, root, vec_hex, unit_hex, stats, skip_inst=False):
         if got_tuple != adv or got_str != adv:
             return "a value supplied at the advertised path %s of parameter %s goes to %s (path as advertised) / %s (path as strings); " \
                    "-1: not a parameter, -2: raised" % (".".join(p), adv, got_tuple, got_str)
+        if got_item != adv:
+            return "walking the model along the advertised path %s of parameter %s with collection[name] / getattr finds %s; " \
+                   "-1: not a parameter, -2: raised" % (".".join(p), adv, got_item)
         stats["path-resolution:compared"] = stats.get("path-resolution:compared", 0) + 1
     if skip_inst:
         return None
@@ -497,8 +502,8 @@ def coq_rcase(r, vec_hex, root):
     advertised / as strings) and what the public accessors return at the structural unique paths."""
     opt = lambda x: "(Some %s)" % cnat(x) if x >= 0 else "None"
     res = []
-    for p, adv, got_tuple, got_str in r.get("resolve", []):
-        for g in sorted({got_tuple, got_str}):
+    for p, adv, got_tuple, got_str, got_item in r.get("resolve", []):
+        for g in sorted({got_tuple, got_str, got_item}):
             res.append("(%s, %s)" % (MG.coq_path(p), opt(g)))
     acc = []
     for p, by_item, by_attr in r.get("acc", []):
